@@ -111,6 +111,24 @@ def run_sync(spec):
     if out.exc is not None:
         raise Violation('scenario_exception', f'{type(out.exc).__name__}: {out.exc}', signature=['exc', type(out.exc).__name__])
     outs, term, close_exc = out.result
+    return _finish(spec, out, box, outs, term, close_exc, exp_outs, exp_term)
+
+
+def _warm():
+    spec = {
+        'n': 3,
+        'src_fail': None,
+        'src_delays': [0.0],
+        'stages': [{'op': 'buffer', 'maxsize': 3}, {'op': 'parmap', 'c': 2, 'fail': [], 'delays': [0.001]}, {'op': 'parmap_async', 'c': 2, 'fail': [], 'delays': [0.001]}],
+        'consume': {'kind': 'all', 'at': 0},
+        'cons_delays': [0.0],
+        'sched': {'kind': 'default'},
+    }
+    for _ in range(2):
+        run_sync(spec)
+
+
+def _finish(spec, out, box, outs, term, close_exc, exp_outs, exp_term):
     if close_exc is not None:
         raise Violation('close_raised', f'closing the iterator raised {close_exc}', signature=['close_raised', close_exc[1]])
     if outs != exp_outs or term != exp_term:
@@ -136,25 +154,94 @@ def run_sync(spec):
     nontrivial = (early or failed) and box.get('in_flight', 0) > 0
     return CaseInfo(
         nontrivial=nontrivial,
-        descriptor=[spec['n'], spec['stages'], spec['consume'], spec.get('src_fail'), out.sim.trace[:60]],
-        classes=tuple(['early_stop' if early else ('failure' if failed else 'complete')] + sizes + [f"sched_{spec['sched']['kind']}"]),
+        descriptor=[spec.get('mode'), spec['n'], spec['stages'], spec['consume'], spec.get('src_fail'), out.sim.trace[:60]],
+        classes=tuple(['early_stop' if early else ('failure' if failed else 'complete')] + sizes + [f"sched_{spec['sched']['kind']}", f"mode_{spec.get('mode', 'sync')}"]),
         metrics={'steps': out.sim.steps, 'threads': out.sim.max_threads, 'switches': out.sim.switches},
-        sample={'n': spec['n'], 'stages': spec['stages'], 'consume': spec['consume'], 'src_fail': spec.get('src_fail'), 'outs': outs, 'terminal': term, 'switches': out.sim.switches},
+        sample={'mode': spec.get('mode', 'sync'), 'n': spec['n'], 'stages': spec['stages'], 'consume': spec['consume'], 'src_fail': spec.get('src_fail'), 'outs': outs, 'terminal': term, 'switches': out.sim.switches},
     )
 
 
-def _warm():
-    spec = {
-        'n': 3,
-        'src_fail': None,
-        'src_delays': [0.0],
-        'stages': [{'op': 'buffer', 'maxsize': 3}, {'op': 'parmap', 'c': 2, 'fail': [], 'delays': [0.001]}, {'op': 'parmap_async', 'c': 2, 'fail': [], 'delays': [0.001]}],
-        'consume': {'kind': 'all', 'at': 0},
-        'cons_delays': [0.0],
-        'sched': {'kind': 'default'},
-    }
-    for _ in range(2):
-        run_sync(spec)
+def run_async(spec):
+    """mode 'async': AsyncStream consumed inside asyncio.run; 'synciter': SyncIter(AsyncStream) consumed synchronously;
+    'asynciter': AsyncIter(Stream) consumed inside asyncio.run."""
+    import asyncio
+
+    from mpservice.streamer._streamer_async import AsyncIter, SyncIter
+
+    exp_outs, exp_term = expected(spec)
+    mode = spec['mode']
+    box = {}
+
+    def scenario():
+        sim = cur().sim
+        close_exc = None
+        if mode == 'synciter':
+            src = sl.ASource(spec['n'], spec.get('src_fail'), spec['src_delays'])
+            it = iter(SyncIter(sl.build_astream(spec, src)))
+            outs, term = sl.consume(it, spec['consume'], spec['cons_delays'])
+            box['in_flight'] = sum(1 for t in sim.threads[1:] if t.state != DONE)
+            try:
+                it.close()
+                del it
+            except sl.SimAbort:
+                raise
+            except BaseException as e:
+                close_exc = sl.norm(e)
+        else:
+
+            async def main():
+                if mode == 'async':
+                    src = sl.ASource(spec['n'], spec.get('src_fail'), spec['src_delays'])
+                    ait = sl.build_astream(spec, src).__aiter__()
+                else:
+                    src = sl.Source(spec['n'], spec.get('src_fail'), spec['src_delays'])
+                    ait = AsyncIter(sl.build_stream(spec, src)).__aiter__()
+                outs, term = await sl.aconsume(ait, spec['consume'], spec['cons_delays'])
+                box['in_flight'] = sum(1 for t in sim.threads[1:] if t.state != DONE)
+                cexc = None
+                try:
+                    await ait.aclose()
+                except sl.SimAbort:
+                    raise
+                except BaseException as e:
+                    cexc = sl.norm(e)
+                return outs, term, cexc
+
+            outs, term, close_exc = asyncio.run(main())
+        box['alive_after_close'] = [(t.idx, t.name) for t in sim.threads[1:] if t.state != DONE]
+        return outs, term, close_exc
+
+    out = run_sim(scenario, spec['sched'], horizon=600.0, max_steps=300_000)
+    hang_check(out)
+    if out.exc is not None:
+        raise Violation('scenario_exception', f'{type(out.exc).__name__}: {out.exc}', signature=['exc', type(out.exc).__name__])
+    outs, term, close_exc = out.result
+    return _finish(spec, out, box, outs, term, close_exc, exp_outs, exp_term)
+
+
+@st.composite
+def apipeline(draw):
+    mode = draw(st.sampled_from(['async', 'async', 'synciter', 'asynciter']))
+    if mode == 'asynciter':
+        spec = draw(pipeline(['buffer', 'parmap', 'parmap_async'], extra_src_exc=('StopRequested',)))
+    else:
+        spec = draw(pipeline(['buffer', 'parmap', 'parmap_async'], extra_src_exc=('StopRequested',)))
+    spec['mode'] = mode
+    if spec['consume']['kind'] in ('break', 'drop'):
+        spec['consume']['kind'] = 'close'
+    return spec
+
+
+def _warm_async():
+    _warm()
+    for mode in ('async', 'synciter', 'asynciter'):
+        spec = {
+            'mode': mode, 'n': 3, 'src_fail': None, 'src_delays': [0.0],
+            'stages': [{'op': 'buffer', 'maxsize': 3}, {'op': 'parmap', 'c': 2, 'fail': [], 'delays': [0.001]}, {'op': 'parmap_async', 'c': 2, 'fail': [], 'delays': [0.001]}],
+            'consume': {'kind': 'all', 'at': 0}, 'cons_delays': [0.0], 'sched': {'kind': 'default'},
+        }
+        for _ in range(2):
+            run_async(spec)
 
 
 RULE_F1 = (
@@ -168,7 +255,7 @@ FAMILIES = [
     Family(
         name='F1_sync',
         engine='sim',
-        strategy=pipeline(['buffer', 'parmap', 'parmap', 'parmap_async']),
+        strategy=pipeline(['buffer', 'parmap', 'parmap', 'parmap_async'], extra_src_exc=('StopRequested', 'StopRequested')),
         run=run_sync,
         quick=3000,
         thorough=200_000,
@@ -176,5 +263,19 @@ FAMILIES = [
         shards_thorough=16,
         rule=RULE_F1,
         setup=_warm,
+    ),
+    Family(
+        name='F2_async',
+        engine='sim',
+        strategy=apipeline(),
+        run=run_async,
+        quick=2000,
+        thorough=150_000,
+        shards_quick=8,
+        shards_thorough=16,
+        rule='as F1 for AsyncStream pipelines consumed inside asyncio.run on a scheduler-aware event loop (mode async), '
+        'SyncIter(AsyncStream) consumed synchronously (mode synciter) and AsyncIter(Stream) (mode asynciter); early stop = explicit aclose()/close(); '
+        'leak check after asyncio.run returned. Non-trivial as F1.',
+        setup=_warm_async,
     ),
 ]
